@@ -56,9 +56,11 @@ func SingleBucket(name string, fs afero.Fs, metaFs afero.Fs, opts ...SingleOptio
 	}
 
 	b := &SingleBucketBackend{
-		name:      name,
-		fs:        fs,
-		metaStore: newMetaStore(metaFs, modTimeFsCalc(fs)),
+		name: name,
+		fs:   fs,
+		metaStore: newMetaStore(metaFs, modTimeFsCalc(fs), func(bucket, object string) (afero.Fs, string) {
+			return fs, object
+		}),
 	}
 	for _, opt := range opts {
 		if err := opt(b); err != nil {
@@ -136,6 +138,9 @@ func (db *SingleBucketBackend) getBucketWithFilePrefixLocked(bucket string, pref
 
 	for _, entry := range dirEntries {
 		object := entry.Name()
+		if isUploadTemp(object) {
+			continue
+		}
 
 		// Expected use of 'path'; see the "Path Handling" subheading in doc.go:
 		objectPath := path.Join(prefixPath, object)
@@ -171,7 +176,7 @@ func (db *SingleBucketBackend) getBucketWithArbitraryPrefixLocked(bucket string,
 	response := gofakes3.NewObjectList()
 
 	if err := afero.Walk(db.fs, filepath.FromSlash("."), func(path string, info os.FileInfo, err error) error {
-		if err != nil || info.IsDir() {
+		if err != nil || info.IsDir() || isUploadTemp(path) {
 			return err
 		}
 
